@@ -51,6 +51,23 @@ def generate(tier, seed, work, stats):
     return cases
 
 
+def with_answers(ev, r, tpool):
+    """Add what the returned grammar itself answers (contains) on all words up to length 3."""
+    from harness import cfgh, guard
+    if r[0] != "ok":
+        return ev
+    words = cfgh.words_upto(tpool, 3)
+    acc = []
+    for w in words:
+        r2 = guard.call(r[1].contains, list(w), timeout=3.0)
+        if r2[0] != "ok":
+            return ev
+        if r2[1]:
+            acc.append(cfgh.tagw(w))
+    ev["rwords"], ev["racc"] = [cfgh.tagw(w) for w in words], acc
+    return ev
+
+
 def replay(case):
     from harness import cfgh, guard
     a, sa, ta = cfgh.make(case["prodsA"], case["vpoolA"], case["tpool"])
@@ -78,7 +95,9 @@ def replay(case):
         guard.call(g.is_empty)
     for op, fn in (("union", lambda: a.union(b)), ("concatenate", lambda: a.concatenate(b)), ("get_closure", a.get_closure),
                    ("reverse", a.reverse), ("invert", lambda: ~a)):
-        evs.append(cfgh.result_event(op, A, guard.call(fn, timeout=4.0), L=Lw, aged=True, **({"H": B} if op in ("union", "concatenate") else {})))
+        r = guard.call(fn, timeout=4.0)
+        evs.append(with_answers(cfgh.result_event(op, A, r, L=Lw, aged=True, **({"H": B} if op in ("union", "concatenate") else {})),
+                                r, case["tpool"]))
     if cfgh.project(a) != A or cfgh.project(b) != B:
         evs.append({"op": "new", "G": cfgh.project(a), "start": sa, "prods": ta, "after": True})
     return evs
